@@ -397,7 +397,7 @@ fn rss_gib() -> f64 {
     std::fs::read_to_string("/proc/self/statm").ok().and_then(|t| t.split_whitespace().nth(1).and_then(|p| p.parse::<f64>().ok())).map(|pages| pages * 4096.0 / (1u64 << 30) as f64).unwrap_or(0.0)
 }
 fn max_rss_gib() -> f64 {
-    std::env::var("VERIF_MAX_RSS_GB").ok().and_then(|s| s.parse().ok()).unwrap_or(24.0)
+    std::env::var("VERIF_MAX_RSS_GB").ok().and_then(|s| s.parse().ok()).unwrap_or(36.0)
 }
 
 fn write_replay(prop: &str, seed: u64, tier: &str, v: &Violation) -> String {
